@@ -1,7 +1,82 @@
-"""C06 -- see contracts/registry.json for the clauses; D kernels + bounded apply-level stand-in."""
+"""C06 -- see contracts/registry.json for the clauses; D kernels + bounded apply-level stand-in + inserted functions."""
+import itertools
+
+import gtirb
+
+from pyvc.run import BResult, Job
+
 from . import apply_bounded, kernels
+
+
+def inserted_functions(tier, seed):
+    """C06, last clause: "a function inserted with register_insert_function appears in all three [tables] with its symbol as name and
+    entry" -- together with the clauses that hold for every function: entries are a subset of blocks, the entry is the block the symbol
+    designates, every block of the inserted code belongs to it, no block is in two functions, other functions are untouched"""
+    def run():
+        import logging
+        from gtirb_rewriting import RewritingContext, _auxdata
+        from bounded import scen
+        logging.getLogger("gtirb_rewriting").setLevel(logging.CRITICAL)
+        br = BResult()
+        bodies = {"one-block": "nop\nret", "branch+label": "cmpq $0, %rdi\nje .Lz\nnop\n.Lz:\nret", "two-labels": "nop\n.La:\njmp .Lb\n.Lb:\nret",
+                  "call": "call g\nret", "loop": ".Ltop:\ndecq %rdi\njne .Ltop\nret"}
+        br.bound = ("module shapes of bounded/scen.py (kinds plain/call, with and without function info) x 1 or 2 functions inserted with register_insert_function x 5 bodies "
+                    "(one block, branch + label, two labels, a call, a loop) x optionally an ordinary edit in the same apply()")
+        br.clauses = ["C06/inserted-function-in-all-three-tables-with-its-symbol-as-name-and-entry", "C06/entries-are-the-blocks-the-function-symbols-designate",
+                      "C06/every-block-of-the-inserted-code-belongs-to-the-function", "C06/no-block-in-two-functions-and-entries-subset-of-blocks",
+                      "C06/existing-functions-untouched-by-an-inserted-function"]
+        distinct = set()
+        for kind, funcs, names, with_edit in itertools.product(("plain", "call"), (False, True), (("one-block",), ("branch+label",), ("two-labels", "call"), ("loop", "one-block")), (False, True)):
+            ir, m, bi, blocks, fl = scen.build(scen.Shape(kind, funcs))
+            fb0 = {u: set(v) for u, v in (_auxdata.function_blocks.get(m) or {}).items()}
+            fe0 = {u: set(v) for u, v in (_auxdata.function_entries.get(m) or {}).items()}
+            rc = RewritingContext(m, fl)
+            syms = [rc.register_insert_function("newfn%d" % i, scen.mkpatch(bodies[b])) for i, b in enumerate(names)]
+            if with_edit:
+                rc.insert_at(blocks[1], 0, scen.mkpatch("nop"))
+            br.cases += 1
+            distinct.add((kind, funcs, names, with_edit))
+            desc = {"shape": "kind=%s funcs=%s" % (kind, funcs), "inserted function bodies": [bodies[b].splitlines() for b in names], "ordinary edit too": with_edit}
+            try:
+                rc.apply()
+            except Exception as ex:      # noqa
+                br.failures.append({"clause": "C06/inserted-function-in-all-three-tables-with-its-symbol-as-name-and-entry", "witness": desc, "detail": "%s: %s" % (type(ex).__name__, str(ex)[:100])})
+                continue
+            fb, fe, fn = _auxdata.function_blocks.get(m) or {}, _auxdata.function_entries.get(m) or {}, _auxdata.function_names.get(m) or {}
+            for s in syms:
+                us = [u for u, n in fn.items() if n is s]
+                if len(us) != 1 or us[0] not in fb or us[0] not in fe:
+                    br.failures.append({"clause": "C06/inserted-function-in-all-three-tables-with-its-symbol-as-name-and-entry", "witness": desc, "detail": "%s: %d name entries" % (s.name, len(us))})
+                    continue
+                u = us[0]
+                if fe[u] != {s.referent}:
+                    br.failures.append({"clause": "C06/entries-are-the-blocks-the-function-symbols-designate", "witness": desc,
+                                        "detail": "%s: %d entries %s, its symbol designates the block at %#x" % (s.name, len(fe[u]), sorted(hex(b.address) for b in fe[u]), s.referent.address)})
+                # blocks of the inserted code: everything reachable by fallthrough / branch edges from the entry inside the new byte interval(s)
+                seen, todo = set(), [s.referent]
+                while todo:
+                    b = todo.pop()
+                    if b in seen or not isinstance(b, gtirb.CodeBlock):
+                        continue
+                    seen.add(b)
+                    for e in b.outgoing_edges:
+                        if e.label.type in (gtirb.EdgeType.Fallthrough, gtirb.EdgeType.Branch) and isinstance(e.target, gtirb.CodeBlock) and e.target not in blocks:
+                            todo.append(e.target)
+                if not seen <= fb[u]:
+                    br.failures.append({"clause": "C06/every-block-of-the-inserted-code-belongs-to-the-function", "witness": desc, "detail": "%s: %d of its %d blocks are not in functionBlocks" % (s.name, len(seen - fb[u]), len(seen))})
+            allb = [b for bs in fb.values() for b in bs]
+            if len(allb) != len(set(allb)) or any(not fe.get(u, set()) <= fb.get(u, set()) for u in fe):
+                br.failures.append({"clause": "C06/no-block-in-two-functions-and-entries-subset-of-blocks", "witness": desc, "detail": "tables inconsistent"})
+            if not with_edit and any(fb.get(u) != v for u, v in fb0.items()) or any(fe.get(u) != v for u, v in fe0.items()):
+                br.failures.append({"clause": "C06/existing-functions-untouched-by-an-inserted-function", "witness": desc, "detail": "an existing function's blocks or entries changed"})
+            if len(br.samples) < 2:
+                br.samples.append(desc)
+        br.nontrivial = len(distinct)
+        return br
+    return run
 
 
 def jobs(tier="quick", seed=0):
     yield from kernels.jobs_for("C06", tier, seed)
     yield apply_bounded.job("C06", tier, seed)
+    yield Job("C06/inserted-functions-bounded", inserted_functions(tier, seed), kind="B", func="gtirb_rewriting.rewriting:RewritingContext.register_insert_function / _insert_function_stub")
